@@ -22,10 +22,12 @@ type finding struct {
 var reStmt = regexp.MustCompile("(?is)^\\s*(INSERT)\\s+INTO\\s+[`\"\\[]?([A-Za-z_]+)|^\\s*(UPDATE)\\s+[`\"\\[]?([A-Za-z_]+)|^\\s*(DELETE)\\s+FROM\\s+[`\"\\[]?([A-Za-z_]+)|^\\s*(SELECT)\\s.*?\\sFROM\\s+[`\"\\[]?([A-Za-z_]+)")
 
 type stmtEv struct {
-	Seq   int
-	Conn  int
-	Verb  string
-	Table string
+	Seq    int
+	Conn   int
+	Verb   string
+	Table  string
+	PTable string // phase table (root statement vs nested statement on the same table)
+	Batch  int
 }
 
 func classify(sql string) (verb, table string) {
@@ -45,14 +47,22 @@ func classify(sql string) (verb, table string) {
 // phases: (table, kind) with kind B (before-hooks), S (statement), A (after-hooks)
 
 type phase struct {
+	Batch int
 	Table string
 	Kind  byte
 }
 
-func (p phase) String() string { return p.Table + "/" + string(p.Kind) }
+func (p phase) String() string {
+	if p.Batch > 0 {
+		return fmt.Sprintf("batch%d/%s/%c", p.Batch, p.Table, p.Kind)
+	}
+	return p.Table + "/" + string(p.Kind)
+}
+
+func isRootTable(t string) bool { return t == "owners" || t == "nodes" }
 
 func rank(p phase) int {
-	if p.Table == "owners" {
+	if isRootTable(p.Table) {
 		switch p.Kind {
 		case 'B':
 			return 0
@@ -75,7 +85,10 @@ func rank(p phase) int {
 // precedes: p is an earlier phase of the operation than q. Phases of two
 // different child tables are not ordered by the property.
 func precedes(p, q phase) bool {
-	if p.Table != q.Table && p.Table != "owners" && q.Table != "owners" {
+	if p.Batch != q.Batch {
+		return p.Batch < q.Batch // batches of a batched create run one after the other
+	}
+	if p.Table != q.Table && !isRootTable(p.Table) && !isRootTable(q.Table) {
 		return false
 	}
 	return rank(p) < rank(q)
@@ -83,9 +96,9 @@ func precedes(p, q phase) bool {
 
 func hookPhase(ev hookEv) phase {
 	if ev.before() {
-		return phase{ev.Table, 'B'}
+		return phase{ev.Batch, ev.PTable, 'B'}
 	}
-	return phase{ev.Table, 'A'}
+	return phase{ev.Batch, ev.PTable, 'A'}
 }
 
 // ---------------------------------------------------------------------------
@@ -114,9 +127,9 @@ func families(c Case, table string) []family {
 		return []family{famFind}
 	case c.Op == "delete":
 		return []family{famDelete}
-	case table != "owners":
+	case !isRootTable(table):
 		return []family{famCreate, famUpdate}
-	case c.Op == "create" || c.Op == "save_new":
+	case c.isCreate():
 		return []family{famCreate}
 	case c.isUpdate():
 		return []family{famUpdate}
@@ -179,6 +192,7 @@ func judge(o *Obs) (fs []finding) {
 	var markers []stmtEv
 	var begins, commits, rollbacks []int
 	beginConn := -1
+	rootInserts := 0
 	for _, ev := range o.Events {
 		switch ev.Kind {
 		case "begin":
@@ -193,12 +207,23 @@ func judge(o *Obs) (fs []finding) {
 			if verb == "" {
 				continue
 			}
-			se := stmtEv{Seq: ev.Seq, Conn: ev.Conn, Verb: verb, Table: table}
+			se := stmtEv{Seq: ev.Seq, Conn: ev.Conn, Verb: verb, Table: table, PTable: table}
 			if table == "audits" {
 				markers = append(markers, se)
-			} else {
-				stmts = append(stmts, se)
+				continue
 			}
+			if table == c.rootTable() && verb == "INSERT" {
+				rootInserts++
+				if c.Graph != "" && rootInserts > 1 {
+					// the argument's own records are inserted first; later
+					// inserts into the same table save records reached through Peers
+					se.PTable = "nodes:nested"
+				}
+			}
+			if c.Batch > 0 && rootInserts > 0 {
+				se.Batch = rootInserts - 1
+			}
+			stmts = append(stmts, se)
 		}
 	}
 
@@ -348,17 +373,23 @@ func judge(o *Obs) (fs []finding) {
 
 	// which child tables take part (see families(): children of update-like
 	// operations may or may not be saved; if they are, their hooks must be right)
-	active := map[string]bool{"owners": true}
+	active := map[string]bool{c.rootTable(): true}
 	for _, ev := range o.Log {
-		active[ev.Table] = true
+		active[ev.PTable] = true
 	}
 	for _, s := range stmts {
-		active[s.Table] = true
+		active[s.PTable] = true
 	}
-	if c.Op == "create" || c.Op == "save_new" || !c.isWrite() {
+	if c.isCreate() || !c.isWrite() {
 		for _, r := range recs {
-			active[r.Table] = true
+			active[r.ptable()] = true
 		}
+	}
+	batchOf := func(r record) int {
+		if c.Batch > 0 {
+			return r.Root / c.Batch
+		}
+		return 0
 	}
 
 	// ---- later phases after the first failing hook
@@ -370,7 +401,7 @@ func judge(o *Obs) (fs []finding) {
 			}
 		}
 		for _, s := range stmts {
-			if s.Seq >= firstFail.Seq && precedes(fp, phase{s.Table, 'S'}) {
+			if s.Seq >= firstFail.Seq && precedes(fp, phase{s.Batch, s.PTable, 'S'}) {
 				add("statement of a later phase ran after a hook error", "#%d %s %s after the error in phase %s", s.Seq, s.Verb, s.Table, fp)
 			}
 		}
@@ -384,7 +415,7 @@ func judge(o *Obs) (fs []finding) {
 	known := map[string]bool{}
 	for _, r := range recs {
 		known[r.Ident] = true
-		if !active[r.Table] {
+		if !active[r.ptable()] {
 			continue
 		}
 		evs := byIdent[r.Ident]
@@ -413,9 +444,9 @@ func judge(o *Obs) (fs []finding) {
 		if lastB > firstA {
 			add("before-hook ran after an after-hook of the same record", "%s: %s", r.Ident, hookNames(evs))
 		}
-		sb, sa := status(phase{r.Table, 'B'}), status(phase{r.Table, 'A'})
+		sb, sa := status(phase{batchOf(r), r.ptable(), 'B'}), status(phase{batchOf(r), r.ptable(), 'A'})
 		ok := false
-		for _, f := range families(c, r.Table) {
+		for _, f := range families(c, r.ptable()) {
 			okB := (sb == stComplete && eq(bs, f.B)) || (sb == stPartial && isSubseq(bs, f.B)) || (sb == stForbidden && len(bs) == 0)
 			okA := (sa == stComplete && eq(as, f.A)) || (sa == stPartial && isSubseq(as, f.A)) || (sa == stForbidden && len(as) == 0)
 			if okB && okA {
@@ -424,14 +455,14 @@ func judge(o *Obs) (fs []finding) {
 		}
 		if !ok {
 			want := []string{}
-			for _, f := range families(c, r.Table) {
+			for _, f := range families(c, r.ptable()) {
 				want = append(want, strings.Join(append(append([]string{}, f.B...), f.A...), ","))
 			}
 			st := []string{"each exactly once", "each at most once", "none"}
 			add("hooks of a record not called once each in the documented order", "record %s (%s): got [%s]; expected before-hooks: %s, after-hooks: %s of [%s]", r.Ident, r.Table, hookNames(evs), st[sb], st[sa], strings.Join(want, " | "))
 		}
 		// relative to the statement on the record's table
-		ss := status(phase{r.Table, 'S'})
+		ss := status(phase{batchOf(r), r.ptable(), 'S'})
 		if ss == stForbidden || (ss == stPartial && len(aev) == 0) {
 			continue
 		}
@@ -448,7 +479,7 @@ func judge(o *Obs) (fs []finding) {
 		}
 		found := false
 		for _, s := range stmts {
-			if s.Table == r.Table && s.Seq >= lo && s.Seq < hi {
+			if s.PTable == r.ptable() && s.Batch == batchOf(r) && s.Seq >= lo && s.Seq < hi {
 				found = true
 			}
 		}
@@ -517,7 +548,7 @@ func judge(o *Obs) (fs []finding) {
 		}
 		existingChild := map[string]bool{}
 		for _, r := range o.Before {
-			if r.Table != "owners" && r.ID != 0 {
+			if c.Op == "save_existing" && r.Table != "owners" && r.ID != 0 {
 				// an existing child is only re-linked by its parent's save
 				// (ON CONFLICT DO UPDATE of the foreign key): its other columns
 				// are documented not to be stored without FullSaveAssociations
@@ -553,7 +584,25 @@ func mainEffect(o *Obs, recs []record, add func(kind, format string, a ...interf
 		after[r.Ident] = r
 	}
 	switch {
-	case c.Op == "create" || c.Op == "save_new" || c.Op == "save_existing":
+	case c.isCreate() || c.Op == "save_existing":
+		if c.Graph != "" {
+			// every edge of the graph has its join row
+			var want, got []string
+			seenEdge := map[string]bool{}
+			for _, e := range o.Edges {
+				k := fmt.Sprintf("node_id=%d|peer_id=%d", e[0].ID, e[1].ID)
+				if !seenEdge[k] {
+					seenEdge[k] = true
+					want = append(want, k)
+				}
+			}
+			got = append(got, o.Post["node_peers"]...)
+			sort.Strings(want)
+			sort.Strings(got)
+			if !eq(want, got) {
+				add("join rows differ from the edges of the saved graph", "got %v want %v", got, want)
+			}
+		}
 		for _, r := range recs {
 			if r.Table != "owners" && c.Op == "save_existing" && c.Shape == "ptr_struct" {
 				continue // Save(&existing) selects "*": associations are not saved
@@ -564,7 +613,7 @@ func mainEffect(o *Obs, recs []record, add func(kind, format string, a ...interf
 				add("saved record has no row", "record %s (%s) id=%d", r.Ident, r.Table, a.ID)
 				continue
 			}
-			if r.Table == "owners" && row["name"] != r.Name {
+			if isRootTable(r.Table) && row["name"] != r.Name {
 				add("saved row has the wrong name", "record %s (%s) id=%d: %q vs %q", r.Ident, r.Table, a.ID, row["name"], r.Name)
 			}
 		}
